@@ -59,6 +59,8 @@ def gen_history(rng, n, watch=False):
             ops.append("rep:%d:%d:%d" % (rng.choice([0, 1]), 0, rng.choice([0, 1, 2])))
         elif r < 0.96 and not watch:
             ops.append("was")
+        elif r < 0.98:
+            ops.append("nw:" + rng.choice("01"))
         else:
             ops.append("root")
     return ops
@@ -143,6 +145,8 @@ def stateless(wspec_, ops):
                     except Exception:
                         g[4] = True
                         res = "err"
+            elif k == "nw":
+                res = fresh.do("root")
             else:
                 res = fresh.do(o)
         except Exception:
